@@ -65,12 +65,6 @@ theorem facetCount_refine3 (M : Mesh) (h : Ok3 M) (x : Nat) :
   rw [← List.map_flatten, List.count_eq_countP, List.countP_map]
   exact (table_perm3 M.kind).countP_eq _
 
-/-- the orientation code the refiner computes for the cell's `k`-th face -/
-def faceCode (M : Mesh) (i k : Nat) : Int :=
-  let sv := M.tuple 3 0 i
-  let fm := (faceIndexMap M.kind 3 2 0).getD k []
-  FeatModel.Refine.compare M.kind 2 (sv.getD (fm.getD 0 0) 0) (sv.getD (fm.getD 1 0) 0) (M.tuple 2 0 (M.entry 3 2 i k))
-
 theorem face_child_vals (M : Mesh) (i k : Nat) :
     (faceChildTerms M.kind k).map (evalTerm M 3 2 i)
       = (childVals M.kind (faceCode M i k)).map fun v => 4 * M.entry 3 2 i k + v := by
